@@ -158,14 +158,16 @@ pub fn gen_intvec<T: Elem>(cx: &mut Ctx, r: &mut Rng, size_class: u32) {
 /// (min-max vs delta vs block based, chosen by estimated size) runs, shaped so that the block layout wins:
 /// far-apart block bases, one-bit offsets.  Always replayed in the Coq model (about ten seconds there).
 pub fn full_analysis_case<T: Elem>(cx: &mut Ctx, r: &mut Rng) {
-    let n = 10001 + r.below(300) as usize;
+    // read through a clone (intvec_case does so when (n + ctor) % 3 == 0): the block layout is the one with an index to copy
+    let ctor = if r.chance(1, 2) { 0usize } else { 2 };
+    let mut n = 10001 + r.below(300) as usize; while (n + ctor) % 3 != 0 || n % 128 == 0 { n += 1; }
     let hi = T::hi(); let lo = T::lo().max(0);
     let last_block = (n - 1) / 128;
     let mut base = lo;
     // the short last block carries the largest offsets: the offset width has to come from it
     let vals: Vec<T> = (0..n).map(|i| { if i % 128 == 0 { base = lo + (r.next() as u128 % ((hi - lo - 3) as u128)) as i128; }
         T::from_i128(base + if i / 128 == last_block { r.below(4) as i128 } else { r.below(2) as i128 }) }).collect();
-    intvec_case::<T>(cx, &vals, "full_analysis_blocks", &[if r.chance(1, 2) { 0 } else { 2 }], 1, r);
+    intvec_case::<T>(cx, &vals, "full_analysis_blocks", &[ctor], 1, r);
 }
 
 /// Fields of 59..63 bits whose last field reaches into the very last byte of the 16-byte aligned buffer through
@@ -211,9 +213,17 @@ pub fn analysis_threshold_family<T: Elem>(cx: &mut Ctx, r: &mut Rng) {
     } }
 }
 
-/// IntVec::new() / Default: an empty vector
+/// IntVec::new() / Default: an empty vector; and the element conversions of PackedInt the containers are generic over
+/// (to_u64 / from_u64 and to_i64 / from_i64 are inverse on the type, max_value / min_value are the type's extremes)
 pub fn empty_constructors<T: Elem>(cx: &mut Ctx) {
     let cell = format!("IntVec<{}>/from_slice", T::NAME);
+    for x in [T::lo(), T::lo() + 1, -1i128, 0, 1, T::hi() / 2, T::hi() / 2 + 1, T::hi() - 1, T::hi()] {
+        if x < T::lo() { continue; }
+        let v = T::from_i128(x);
+        if T::from_u64(v.to_u64()) != v || T::from_i64(v.to_i64()) != v || T::max_value().to_i128() != T::hi() || T::min_value().to_i128() != T::lo() || T::bit_width() as u32 != T::BITS {
+            cx.sum.fail(&cell, None, json!({"cell": "intvec", "type": T::NAME, "ctor": 0, "values": [x.to_string()]}), &format!("PackedInt conversions of {} do not return the value", x));
+        }
+    }
     cx.sum.eval(&cell, &format!("{} new/default", cell), false);
     for (k, iv) in [IntVec::<T>::new(), IntVec::<T>::default(), IntVec::<T>::new().clone()].iter().enumerate() {
         if iv.len() != 0 || !iv.is_empty() || iv.get(0).is_some() || iv.get(usize::MAX).is_some() {
